@@ -2,6 +2,7 @@ package lab
 
 import (
 	"fmt"
+	"strings"
 	"time"
 
 	"github.com/element-of-surprise/coercion/workflow"
@@ -441,7 +442,7 @@ func ConsistencyC04(prefix string, p *workflow.Plan, res *vprop.Result) bool {
 	ok := true
 	eachState(p, func(tag string, s *workflow.State) {
 		if ok && status(s) == workflow.Running {
-			res.Fail(prefix+"/left-running", "%s is still Running in the final plan: %s", tag, Describe(p))
+			res.Fail(prefix+"/left-running:"+kindOfTag(tag), "%s is still Running in the final plan: %s", tag, Describe(p))
 			ok = false
 		}
 		// "start<=end everywhere"
@@ -564,6 +565,33 @@ func ConsistencyC04(prefix string, p *workflow.Plan, res *vprop.Result) bool {
 		}
 	}
 	return true
+}
+
+// kindOfTag classifies an object tag of eachState ("plan", "pre", "pre/a0", "b0", "b0/cont", "b0/cont/a1", "b0/s1",
+// "b0/s1/a0") for violation signatures.
+func kindOfTag(tag string) string {
+	parts := strings.Split(tag, "/")
+	scope := "plan"
+	if strings.HasPrefix(parts[0], "b") {
+		scope = "block"
+		parts = parts[1:]
+	}
+	switch {
+	case len(parts) == 0:
+		return "block"
+	case parts[0] == "plan":
+		return "plan"
+	case strings.HasPrefix(parts[0], "s"):
+		if len(parts) == 2 {
+			return "sequence-action"
+		}
+		return "sequence"
+	default:
+		if len(parts) == 2 {
+			return scope + "-" + parts[0] + "-action"
+		}
+		return scope + "-" + parts[0] + "-group"
+	}
 }
 
 func sameState(a, b *workflow.State) bool {
